@@ -195,3 +195,16 @@ Example c15_ex_quota :
   /\ snd (step pl [((1%N, 1%N), 5); ((1%N, 2%N), 0)] (RInsert 1 1 1 0)) = RespQuota
   /\ snd (step pl [((1%N, 1%N), 4); ((1%N, 2%N), 0)] (RInsert 1 1 1 0)) = RespOk.
 Proof. vm_compute. repeat split; reflexivity. Qed.
+
+(* --- on a live node: when the checker accepts what the shards hold after an accepted insert, every shard holds a
+   contiguous range of the id-sorted batch and every position 0..n-1 of the batch is stored exactly once *)
+Theorem c15_live_checker_sound : forall n stored, live_ranges_b n stored = true ->
+  (forall s, In s stored -> exists a, s = range_from a (length s))
+  /\ length (concat stored) = n
+  /\ forall i, (i < n)%nat -> count_n (N.of_nat i) (concat stored) = 1%nat.
+Proof. exact live_ranges_sound. Qed.
+Print Assumptions c15_live_checker_sound.
+(* three points sorted by id over two shards: [0,2) and [2,3) pass; a shard holding positions 0 and 2 does not *)
+Example c15_ex_live :
+  live_ranges_b 3 [[0; 1]; [2]]%N = true /\ live_ranges_b 3 [[0; 2]; [1]]%N = false /\ live_ranges_b 3 [[0; 1]; [1; 2]]%N = false.
+Proof. vm_compute. repeat split; reflexivity. Qed.
